@@ -70,7 +70,7 @@ Section Spec.
       destruct (f_status f =? status_OK)%Z eqn:Es.
       2:{ destruct (f_status f =? status_NOT_FOUND)%Z; discriminate. }
       apply Z.eqb_eq in Es.
-      destruct (decode (f_body f)) as [| |h] eqn:Ed; try discriminate.
+      destruct (decode (f_body f)) as [| |h|] eqn:Ed; try discriminate.
       destruct (h_ok h) eqn:Ev; try discriminate.
       destruct (process_frames r) as [hs'| | |] eqn:Er; try discriminate.
       inversion H; subst. constructor; auto.
@@ -80,7 +80,7 @@ Section Spec.
   Proof.
     induction l as [|f r IH]; cbn; try discriminate.
     destruct (status_err (f_status f)); try discriminate.
-    destruct (decode (f_body f)) as [| |h]; try discriminate.
+    destruct (decode (f_body f)) as [| |h|]; try discriminate.
     destruct (h_ok h); try discriminate.
     destruct (process_frames r); try discriminate. congruence.
   Qed.
@@ -165,7 +165,7 @@ Section Spec.
         destruct (f_status f =? status_OK)%Z eqn:Es.
         2:{ destruct (f_status f =? status_NOT_FOUND)%Z; discriminate. }
         apply Z.eqb_eq in Es.
-        destruct (decode (f_body f)) as [| |h0] eqn:Ed; try discriminate.
+        destruct (decode (f_body f)) as [| |h0|] eqn:Ed; try discriminate.
         destruct (h_ok h0) eqn:Ev; try discriminate.
         cbn in H. rewrite andb_true_r in H.
         destruct (validate_chain fold want (h_chain h0)) eqn:Ec; try discriminate.
@@ -455,6 +455,22 @@ Section Spec.
     - intros h [f' [r' [e' [Heq [_ [Hd' _]]]]]]. inversion Heq; subst. congruence.
     - intros Hs. unfold request. cbn. unfold status_err. rewrite Hs. cbn. rewrite Hd. reflexivity.
   Qed.
+
+  (** the same for a body that decodes to a header on which Validate() panics *)
+  Lemma validate_panic_is_bad want f rest e :
+    decode (f_body f) = DValPanic ->
+    answers_badly want (SData (f :: rest) e) /\
+    (f_status f = status_OK -> request want 1 (SData (f :: rest) e) = Err EPanic).
+  Proof.
+    intros Hd. split.
+    - intros h [f' [r' [e' [Heq [_ [Hd' _]]]]]]. inversion Heq; subst. congruence.
+    - intros Hs. unfold request. cbn. unfold status_err. rewrite Hs. cbn. rewrite Hd. reflexivity.
+  Qed.
+
+  Lemma total_validate_panic want n evs hash height :
+    (exists fs e f, In (Arrive (SData fs e)) evs /\ In f fs /\ decode (f_body f) = DValPanic) ->
+    get want n evs hash <> Panic /\ get_by_height want n evs height <> Panic.
+  Proof. intros _. apply total. Qed.
 
   (** ** Statements in the exact form of Props/C13.v *)
 
